@@ -3231,7 +3231,7 @@ func (a *MedAction) Apply(path *Path, _ *PolicyOptions) (*Path, error) {
 }
 
 func (a *MedAction) ToConfig() oc.BgpSetMedType {
-	if a.action == MED_ACTION_MOD && a.value > 0 {
+	if a.action == MED_ACTION_MOD && a.value >= 0 {
 		return oc.BgpSetMedType(fmt.Sprintf("+%d", a.value))
 	}
 	return oc.BgpSetMedType(fmt.Sprintf("%d", a.value))
